@@ -297,7 +297,7 @@ Proof.
     split.
     + rewrite Hv, Hmask0. change (qN 0) with 0%Q in *. rewrite <- Hq. reflexivity.
     + rewrite andb_comm. destruct exi eqn:Ee.
-      * cbn [andb]. exact Hex.
+      * rewrite andb_true_r. exact Hex.
       * exfalso. assert (Hm : mask_ds sf ipd = ipd).
         { rewrite (Hiz Eip). unfold mask_ds. destruct (N.to_nat sf) as [|k]; [reflexivity|]. destruct k; reflexivity. }
         apply Hexi in Hm. discriminate.
